@@ -200,3 +200,38 @@ def init_lines(rng, models, n_hom, hetero_models=('GR4J', 'Lag'), n_het=6):
                 n = rng.choice([2, 3, 5])
                 lines.append(('het', 'INIT %s %d %d %d 1' % (m, n, n, rng.randrange(1 << 30))))
     return lines
+
+
+def coqchk(c, pid):
+    """thorough tier: independent re-check of the compiled proofs with coqchk."""
+    try:
+        out = sh('timeout 1500 coqchk -silent -o -Q . OW OW.Properties.%s' % pid, cwd=COQ, timeout=1600)
+    except BuildError as e:
+        c.proof_broken = c.proof_broken or ('coqchk ' + pid, e.output[-2000:])
+        return 'failed'
+    if 'Axioms: <none>' not in out.replace('\n', ' ').replace('  ', ' '):
+        return 'ok (axioms: see output) ' + ' '.join(out.split())[:300]
+    return 'ok, axioms: none'
+
+
+def repo_state():
+    """fingerprint of /repo's working tree (HEAD + uncommitted changes)"""
+    import hashlib
+    h = hashlib.sha1()
+    for cmd in ('git -C /repo rev-parse HEAD', 'git -C /repo diff', 'git -C /repo status --porcelain'):
+        h.update(sh(cmd, check=False).encode())
+    return h.hexdigest()
+
+
+def build_pair(max_tries=4):
+    """Build the plain and the -race harness from ONE state of /repo's working tree (other
+    checks may be mutating /repo concurrently while this one runs): rebuild until the tree did
+    not change between the two builds.  -> (state fingerprint, stable?)"""
+    st = None
+    for _ in range(max_tries):
+        st = repo_state()
+        build_harness(['cellrun'])
+        build_harness(['cellrun'], race=True)
+        if repo_state() == st:
+            return st, True
+    return st, False
